@@ -75,36 +75,80 @@ Restore(ty, c) ==
                             THEN MV("vec", Payloads(c.v)) ELSE MErr
 
 \* ------------------------------------------------------------ the state machine
-CONSTANT Dom(_)        \* Dom(ty): the values of type ty explored by the bounded model
-VARIABLES ty, orig, phase, carried, xml, result
-vars == <<ty, orig, phase, carried, xml, result>>
+(* One LLSDMessageSerializer INSTANCE handling a sequence of messages of one type.  The         *)
+(* instance is long-lived (the event-queue manager keeps one per region); the property speaks   *)
+(* about every message, so what the instance does with a message must not depend on the         *)
+(* messages it has handled before (HistoryIndependent).                                         *)
+(* The watched variable lives in one block of the message; a message has a profile:             *)
+(*   "full"  the block is there with an instance, "empty" the block list is there with no       *)
+(*   instance, "cut" the block (and everything after it) is omitted.                            *)
+(* Spec level: the instance has no memory that matters.  Algo level: Memo names what an         *)
+(* implementation may remember per message type about "which variables need a carrier":         *)
+(*   "none" nothing, "template" computed from the template on first use, "firstbody" computed   *)
+(*   from the blocks present in the first message it sees (a design that is NOT history         *)
+(*   independent; kept so that TLC shows the law bites).                                        *)
+CONSTANT Dom(_),       \* Dom(ty): the values of type ty explored by the bounded model
+         Memo,         \* "none" | "template" | "firstbody"
+         MaxHist,      \* how many earlier messages one instance sees
+         HistTypes     \* template types for which histories longer than one message are explored
+VARIABLES ty, orig, phase, carried, xml, result,
+          prof,        \* profile of the message being handled
+          hist,        \* profiles of the messages this instance handled before, oldest first
+          memo         \* "unset" | "yes" | "no": what the instance remembers about the watched block
+vars == <<ty, orig, phase, carried, xml, result, prof, hist, memo>>
+Profs == {"full", "empty", "cut"}
+Absent == V("absent", <<>>)
+Untouched == V("raw", <<>>)       \* the variable was left as it is in the message: not an LLSD carrier
+MAbsent == MV("absent", <<>>)
+
+\* does this instance treat the watched variable as one that needs a carrier, now
+Treats == CASE Memo = "none" -> TRUE
+            [] memo # "unset" -> memo = "yes"
+            [] Memo = "template" -> TRUE
+            [] OTHER -> prof # "cut"                \* "firstbody": only blocks present in this body
+Remember == IF Memo = "none" \/ memo # "unset" THEN memo ELSE IF Treats THEN "yes" ELSE "no"
 
 Init == /\ ty \in Types /\ orig \in Dom(ty)
         /\ phase = "msg" /\ carried = Err /\ xml = FALSE /\ result = MErr
+        /\ prof \in Profs /\ hist = <<>> /\ memo = "unset"
 \* LLSDMessageSerializer.serialize(msg, as_dict=True)
 Serialize == /\ phase = "msg" /\ phase' = "llsd"
-             /\ carried' = Carrier(ty, orig)
-             /\ UNCHANGED <<ty, orig, xml, result>>
+             /\ carried' = IF prof # "full" THEN Absent ELSE IF Treats THEN Carrier(ty, orig) ELSE Untouched
+             /\ memo' = Remember
+             /\ UNCHANGED <<ty, orig, xml, result, prof, hist>>
 \* format_xml / parse: XML carries every LLSD value unchanged
 XmlHop == /\ phase = "llsd" /\ ~xml /\ xml' = TRUE
-          /\ UNCHANGED <<ty, orig, phase, carried, result>>
+          /\ UNCHANGED <<ty, orig, phase, carried, result, prof, hist, memo>>
 \* LLSDMessageSerializer.deserialize
 Deserialize == /\ phase = "llsd" /\ phase' = "back"
-               /\ result' = Restore(ty, carried)
-               /\ UNCHANGED <<ty, orig, carried, xml>>
-Next == Serialize \/ XmlHop \/ Deserialize
+               /\ result' = IF prof # "full" THEN MAbsent
+                            ELSE IF carried = Untouched THEN orig
+                            ELSE IF Treats THEN Restore(ty, carried) ELSE MErr
+               /\ memo' = Remember
+               /\ UNCHANGED <<ty, orig, carried, xml, prof, hist>>
+\* the same instance is handed the next message of this type
+NextMessage(p) == /\ phase = "back" /\ Len(hist) < MaxHist /\ ty \in HistTypes
+                  /\ hist' = Append(hist, prof) /\ prof' = p
+                  /\ phase' = "msg" /\ carried' = Err /\ xml' = FALSE /\ result' = MErr
+                  /\ UNCHANGED <<ty, orig, memo>>
+Next == Serialize \/ XmlHop \/ Deserialize \/ \E p \in Profs : NextMessage(p)
 Spec == Init /\ [][Next]_vars
 
 \* ------------------------------------------------------------------- invariants
 DomainOK == Fits(ty, orig)
+Watched == phase # "msg" /\ prof = "full"
 \* what is put on the event queue is LLSD (in particular: integers are S32, nothing else is invented)
-CarrierIsLLSD == phase # "msg" => IsLLSD(carried)
+CarrierIsLLSD == Watched => IsLLSD(carried)
 \* the message that comes back equals the original, through the in-memory and the XML form
-RoundTrip == phase = "back" => SameMV(result, orig)
+RoundTrip == (phase = "back" /\ prof = "full") => SameMV(result, orig)
 \* an LLSD integer carries exactly the number: the narrow types are value-preserving
-NumberKept == (phase # "msg" /\ carried.t = "int" /\ ty \in Narrow) =>
+NumberKept == (Watched /\ carried.t = "int" /\ ty \in Narrow) =>
                  LET w == Widen(orig.p, ty \in Signed) IN
                  IntVal(carried.v) = IntVal(w) /\ ((ty \notin Signed) => IntVal(carried.v) >= 0)
 \* wide or unsigned-32 integers never travel as LLSD integers (they would not fit S32)
-WideIsBinary == (phase # "msg" /\ ty \in {"U32", "U64", "S64", "IPADDR"}) => (carried.t = "bin" /\ Len(carried.v) \in {4, 8})
+WideIsBinary == (Watched /\ ty \in {"U32", "U64", "S64", "IPADDR"}) => (carried.t = "bin" /\ Len(carried.v) \in {4, 8})
+\* THE HISTORY-INDEPENDENCE LAW: what the instance makes of a message is a function of that message
+\* alone -- whatever it handled before (hist) and whatever it remembers (memo)
+HistoryIndependent == /\ Watched => Same(carried, Carrier(ty, orig))
+                      /\ (phase # "msg" /\ prof # "full") => carried = Absent
 =============================================================================
